@@ -97,6 +97,23 @@ static void child_run(const Plan& p, const std::string& root) {
         if (op.n.count("abs") && !op.path.empty() && op.path[0] != '/') { MFd* d = entry(op.get("dirfd")); op.path = ((d && !d->ppath.empty()) ? d->ppath : ctx.P + "/d0") + "/" + op.path; }      // dead / standard-stream / never-issued handles: below the first pre-opened directory
         exec_op(op);
         if (S->nviol) break;
+        // table invariant after every operation: a host descriptor recorded for a live WASI descriptor is open, of the kind that was
+        // opened (directory or not), and recorded for no other live descriptor
+        if (op.name != "proc_exit" && op.name.compare(0, 4, "par_") != 0) {
+            std::map<int, size_t> seen;
+            for (size_t k = 3; k < ctx.tab.size() && !S->nviol; k++) {
+                const MFd& e = ctx.tab[k];
+                if (!e.live || e.preopen || e.stdio || e.stale || e.mfd < 0) continue;
+                int nfd = -1, hd = 0; const char* pth = nullptr;
+                if (!wglue_native_fd((unsigned)k, &nfd, &hd, &pth) || nfd < 0) continue;
+                struct stat st;
+                if (__real_fstat(nfd, &st) != 0) V("descriptor", "table:live-descriptor-records-closed-host-fd", "after " + op.name + ": WASI descriptor " + std::to_string(k) + " records host fd " + std::to_string(nfd) + ", which is not open");
+                else if ((S_ISDIR(st.st_mode) != 0) != e.dir) V("descriptor", "table:host-fd-is-another-kind-of-file", "after " + op.name + ": WASI descriptor " + std::to_string(k) + (e.dir ? " (a directory)" : " (a file)") + " records host fd " + std::to_string(nfd) + ", which is " + (S_ISDIR(st.st_mode) ? "a directory" : "not a directory"));
+                else if (seen.count(nfd)) V("descriptor", "table:two-live-descriptors-record-one-host-fd", "after " + op.name + ": WASI descriptors " + std::to_string(seen[nfd]) + " and " + std::to_string(k) + " both record host fd " + std::to_string(nfd));
+                seen[nfd] = k;
+            }
+            if (S->nviol) break;
+        }
     }
     if (!S->nviol && (p.prop == "C12" || p.prop == "C14" || p.prop == "C13")) compare_trees("at the end of the history");
     child_finish(0);
